@@ -324,7 +324,7 @@ fn encoder(cfg: &Cfg, rep: &mut Report) {
     rep.case("encoder/len0-2/exhaustive".into());
     let mut rng = Rng::for_history(cfg.seed, "C18", cfg.shard, 99_000);
     for len in 3..=100usize {
-        for _ in 0..cfg.pick(20, 400) {
+        for _ in 0..cfg.pick(20, 4000) {
             let src: Vec<u8> = (0..len).map(|_| rng.next() as u8).collect();
             check(rep, &src);
         }
@@ -341,7 +341,7 @@ fn encoder(cfg: &Cfg, rep: &mut Report) {
 
 pub fn run(cfg: &Cfg, rep: &mut Report) {
     rep.rule = "Per history a fresh P-256 (resp. Ed25519) key pair and 32-byte payload; a genuine assertion built with independent crypto (p256, ed25519-dalek, sha2) must be accepted by the real verifier examples; then single corruptions: every bit of the payload (256), sampled bits of key / signature / authenticator data / client data, all 256 flag bytes re-signed (accept iff UP and UV and not(BS without BE)), type variants, challenge variants (padded, standard alphabet, other payload, truncated, empty, hex, case), client data of 1023/1024/1025/2000 bytes, authenticator data of 33/36/37/120 bytes, payloads of 0/1/31 bytes, another signer. Encoder: all inputs of length 0-2 exhaustively (split over shards), random inputs of every length 3..=100, fill patterns. Distinct case = (verifier, corruption kind or flag bits, outcome). Not judged: payloads longer than 32 bytes (documented: first 32 bytes used) and algebraic signature malleability (host behaviour).".into();
-    let nh = cfg.pick(12u64, 100);
+    let nh = cfg.pick(12u64, 1200);
     for k in 0..nh {
         if cfg.runs(k) {
             webauthn(cfg, rep, k);
